@@ -13,6 +13,7 @@ from harness.common import Ctx, driver, pmap, parse_rat, use_repo
 DT = 600
 EPOCH_OFF = 946684793      # seconds from 1970-01-01T00:00:07 to the time origin of the scenarios
 _worker = {}
+_OWNER = os.getpid()       # fixed at import in the checking process; forked workers inherit it
 
 
 def _forcing_dir():
@@ -20,7 +21,9 @@ def _forcing_dir():
     pid = os.getpid()
     if _worker.get("pid") != pid:
         import tempfile, atexit, shutil
-        d = tempfile.mkdtemp(prefix="ladimverif_c07_")
+        # pool workers end without running atexit handlers: the directory carries the id of the process that runs the check,
+        # which removes its workers' directories after the map (see `run`)
+        d = tempfile.mkdtemp(prefix=f"ladimverif_c07_{_OWNER}_")
         atexit.register(shutil.rmtree, d, ignore_errors=True)
         lab.make_grid_forcing(os.path.join(d, "forcing.nc"), [-2000000, 0, 2000000])
         _worker.update(pid=pid, dir=d)
@@ -187,6 +190,10 @@ def run(ctx: Ctx):
     use_repo()
     cs = cases(ctx)
     got = pmap(run_case, cs)
+    import glob, shutil, tempfile
+    for d in glob.glob(os.path.join(tempfile.gettempdir(), f"ladimverif_c07_{_OWNER}_*")):
+        if d != _worker.get("dir"):
+            shutil.rmtree(d, ignore_errors=True)
     want = driver([model_request(c) for c in cs])
     for c, g, w in zip(cs, got, want):
         nrec = -(-c["nsteps"] // c["period"])
